@@ -96,6 +96,11 @@ void make_values(const vf_type *T, int m, int n, uint64_t pat, int scheme, dmat 
         case 5: v = ((h % 2) ? -1.0 : 1.0) * (1.0 + (h % 11)) / (3.0 + (h % 7)) * pow(10.0, 6 * ((j % 3) - 1)); break;
         case 6: v = ((h % 3) ? 1.0 : -1.0) * ldexp(1.0, (h % 7) - 3); break;
         case 7: v = ((h % 2) ? -1.0 : 1.0) * (1.0 + (h % 11)) / (3.0 + (h % 7)) * pow(10.0, 4 * ((i % 3) - 1)) * pow(10.0, 3 * (((j + 1) % 3) - 1)); break;
+        case 8: v = 1.0 + 1e-3 * ((h % 7) - 3); break;      /* nearly rank one: condition ~ 1/delta */
+        case 9: v = 1.0 + 1e-6 * ((h % 7) - 3); break;
+        case 10: v = 1.0 + 1e-9 * ((h % 7) - 3); break;
+        case 11: v = ((h % 2) ? -1.0 : 1.0) * (1.0 + (h % 5)) * pow(1e-5, (double)i); break;   /* row graded */
+        case 12: v = ((h % 2) ? -1.0 : 1.0) * (1.0 + (h % 5)) * pow(1e-4, (double)j); break;   /* column graded */
         default: v = 1.0;
         }
         double _Complex z = v;
